@@ -433,6 +433,9 @@ Proof.
   - destruct (prop_wf p); [|exact J0]. eapply Inv6_eq; [apply recv_proposal_v|exact J0].
   - apply add_block_J; auto. cbn. now left.
   - destruct (negb _); [exact J0|]. destruct (pparts s0); [now apply Inv6_panic|exact J0].
+  - eapply Inv6_eq; [|exact J0]. unfold add_bad_block.
+    destruct (negb _); [apply v_eq_refl|]. destruct (pparts s0) as [ps|]; [|apply v_eq_refl].
+    destruct (negb _); [apply v_eq_refl|]. destruct (ps_complete s0 ps); [apply v_eq_refl|]. repeat split.
   - destruct (bid_wf _); [now apply add_vote_J|exact J0].
   - destruct (existsb _ _); [|exact J0]. apply handle_timeout_J.
     eapply Inv6_eq; [|exact J0]. repeat split.
